@@ -4,11 +4,12 @@ import JugModel.Driver.Hash
 import JugModel.Driver.Exec
 import JugModel.Driver.Lock
 import JugModel.Driver.Store
+import JugModel.Driver.Graph
 /-! Line-protocol driver: one JSON object per input line, one JSON answer per output line.
     Imports the executable models only (never `Props`), so it still builds when a proof breaks. -/
 open Lean Jug.Drv
 
-def handlers : List (String → Json → Option Json) := [handleMR, handleOpt, handleHash, handleExec, handleLock, handleStore]
+def handlers : List (String → Json → Option Json) := [handleMR, handleOpt, handleHash, handleExec, handleLock, handleStore, handleGraph]
 
 def dispatch (j : Json) : Json :=
   let op := getStr j "op"
